@@ -204,10 +204,10 @@ static const unsigned FEAT_COMBOS[] = {0, FE_Cons, FE_Contact, FE_Events, FE_Mea
 static const int N_FEAT_COMBOS = (int)(sizeof FEAT_COMBOS / sizeof FEAT_COMBOS[0]);
 
 // cableSurfaceWithHandlers: a wrapping-surface obstacle makes CableTrackerSubsystem own an event trigger; together with
-// a TriggeredEventHandler/Reporter (DefaultSystemSubsystem) Integrator::initialize() then overruns a heap array in
-// DefaultSystemSubsystem::Guts::calcEventTriggerInfoImpl (System.cpp:1238, reported to the lead with a standalone
-// repro). Until that is repaired the generator gives such scenarios a via point instead (the knob re-enables them).
-struct ScenKnobs { int maxBodies = 5; int maxStates = 36; long budget = 6000; bool cableSurfaceWithHandlers = false; };
+// a TriggeredEventHandler/Reporter (DefaultSystemSubsystem) Integrator::initialize() used to overrun a heap array in
+// DefaultSystemSubsystem::Guts::calcEventTriggerInfoImpl (found here, repaired by 183ae3d6). The combination is
+// generated by default; --cable-surface-with-handlers 0 gives such scenarios a via point instead (investigation aid).
+struct ScenKnobs { int maxBodies = 5; int maxStates = 36; long budget = 6000; bool cableSurfaceWithHandlers = true; };
 
 static long g_dumpStep = -1;   // investigation aid (--dumpstep K): print the raw vectors of returned step K of every run to stderr
 inline void dumpVec(const char* nm, const Vector& v) { fprintf(stderr, "    %-10s[%d]", nm, v.size()); for (int i = 0; i < v.size(); ++i) fprintf(stderr, " %.17g", (double)v[i]); fprintf(stderr, "\n"); }
@@ -376,6 +376,7 @@ struct Scen {
         io.stepMode = r.coin(0.6) ? 0 : r.integer(1, 3); io.h = T / r.integer(8, 40);
         io.stepLimit = r.coin(0.3) ? r.integer(3, 25) : 0;
         reportAll = r.coin(0.6); driver = r.coin(0.35) ? 1 : 0;
+        if (getenv("DET_TRACE")) fprintf(stderr, "DET_TRACE build seed=%llu cyc=%ld integ=%d NQ=%d NU=%d NZ=%d %s|%s | %s | %s\n", (unsigned long long)seed, cyc, forceInteg, s0.getNQ(), s0.getNU(), s0.getNZ(), md.shortStr().c_str(), elems.c_str(), featKey.c_str(), ikName(io.kind));
         descr = md.shortStr() + "|" + elems + " | " + featKey + " | " + ikName(io.kind) + (driver ? " manual" : (reportAll ? " ts/all" : " ts"));
     }
 
@@ -485,6 +486,9 @@ struct Run {
         if (o.kind != IK_SEE) { if (o.stepMode == 1) integ->setFixedStepSize(o.h); else if (o.stepMode == 2) integ->setMaximumStepSize(o.h); else if (o.stepMode == 3) integ->setInitialStepSize(o.h / 4); }
         if (o.stepLimit > 0) integ->setInternalStepLimit(o.stepLimit);
         tRep = sc.T / sc.nReports;
+        // CPodesIntegrator on a System without continuous state variables dies in CPodes (SIGSEGV in nvmin_SimTK after
+        // "CPLapackDense: A memory request failed"; reported with a standalone repro): such a run is not started
+        if ((o.kind == IK_CPBDF || o.kind == IK_CPAdams) && init.getNY() == 0) { finish("not-run:CPodes-without-continuous-state"); return; }
         sc.active = &ctl;
         try {
             if (sc.driver == 0) { ts.reset(new TimeStepper(sc.m.sys, *integ)); ts->setReportAllSignificantStates(sc.reportAll); ts->initialize(init); }
